@@ -102,9 +102,9 @@ Definition spec_bm_mirror_free (a : addr) (mnum : Z) := ok true a MSG_BM_MIRROR_
 Definition spec_bm_addr_get_range (a : addr) (start end_ : Z) :=
   ok (start <=? end_) a MSG_BM_ADDR_GET_RANGE [start; end_].
 Definition spec_bm_get_confidence (a : addr) := ok true a MSG_BM_GET_CONFIDENCE [].
-(* the function has no decoder-address parameters (bidib_messages.h lists addr_l, addr_h first): see C19 and notes *)
-Definition spec_msg_bm_mirror_position (a : addr) (type location_low location_high : Z) :=
-  ok true a MSG_BM_MIRROR_POSITION [type; location_low; location_high].
+(* bidib_messages.h: 1:addr_l, 2:addr_h, 3:type, 4:location_id_l, 5:location_id_h *)
+Definition spec_msg_bm_mirror_position (a : addr) (addr_l addr_h type location_low location_high : Z) :=
+  ok true a MSG_BM_MIRROR_POSITION [addr_l; addr_h; type; location_low; location_high].
 
 (* ---------------- bidib_lowlevel_portconfig.h ---------------- *)
 Definition spec_lc_output (a : addr) (port0 port1 portstat : Z) := ok true a MSG_LC_OUTPUT [port0; port1; portstat].
@@ -225,7 +225,7 @@ Definition spec_call (f : fn) (sc : list Z) (bufs : list (list Z)) : verdict :=
   | F_bm_mirror_free => spec_bm_mirror_free (A sc) (argz sc 3)
   | F_bm_addr_get_range => spec_bm_addr_get_range (A sc) (argz sc 3) (argz sc 4)
   | F_bm_get_confidence => spec_bm_get_confidence (A sc)
-  | F_msg_bm_mirror_position => spec_msg_bm_mirror_position (A sc) (argz sc 3) (argz sc 4) (argz sc 5)
+  | F_msg_bm_mirror_position => spec_msg_bm_mirror_position (A sc) (argz sc 3) (argz sc 4) (argz sc 5) (argz sc 6) (argz sc 7)
   | F_lc_output => spec_lc_output (A sc) (argz sc 3) (argz sc 4) (argz sc 5)
   | F_lc_port_query => spec_lc_port_query (A sc) (argz sc 3) (argz sc 4)
   | F_lc_port_query_all => spec_lc_port_query_all (A sc) (argz sc 3) (argz sc 4) (argz sc 5) (argz sc 6) (argz sc 7) (argz sc 8)
